@@ -93,6 +93,13 @@ for _i, _n in enumerate(_ATTR_NAMES):
 ATTRIBUTE_PROBES += [{"kids": [], "dicts": [], "kw": [[_n, _ATTR_VALUES[(_i + 1) % 4]] for _i, _n in enumerate(_ATTR_NAMES[k_:k_ + 6])]} for k_ in range(0, len(_ATTR_NAMES), 6)]
 
 
+# numbers of every kind under names that usually take whole numbers: written as str() writes them, by every function
+for _n in ("width", "height", "size", "cols", "rows", "span", "colspan", "tabindex", "value", "min", "max", "step", "x", "y", "r", "cx", "cy", "maxlength", "start"):
+    for _v in (640.0, -0.0, 2.5, True, 1e21, 10**18, -7):
+        ATTRIBUTE_PROBES.append({"kids": [], "dicts": [], "kw": [[_n, {"t": "num", "v": _v}]]})
+    ATTRIBUTE_PROBES.append({"kids": [_T("k")], "dicts": [[[_n, {"t": "num", "v": 300.0}]]], "kw": []})
+
+
 # sizes ordinary calls never reach
 # things that are not children: alone, and next to valid arguments - refused by every function exactly as Tag() refuses them
 INVALID_PROBES = []
